@@ -50,6 +50,18 @@ let () = iter_lines (fun l ->
       let g = { g_server = true; g_supp = ni supp; g_active = ni act; g_disabled_global = []; g_disabled = csv 16 dis } in
       let o = okf (csv 16 ok) in
       (match choose_suite g o o (csv 16 suites) with Some s -> Printf.sprintf "ccs=0:%04x" (i s.s_id) | None -> "ccs=-1:0000")
+  | ["dh"; _; supp; act; ops; suites; ok] ->
+      let parse_op t = (match String.split_on_char ':' t with
+        | ["d"; x] -> DDis (nh x) | ["e"; x] -> DEn (nh x) | ["D"; x] -> GDis (nh x) | ["E"; x] -> GEn (nh x) | _ -> failwith "op") in
+      let opl = if ops = "-" then [] else List.map parse_op (String.split_on_char ',' ops) in
+      let (st, rcs) = run_ops dinit opl in
+      let g = scfg_after true (ni supp) (ni act) st in
+      let o = okf (csv 16 ok) and sl = csv 16 suites in
+      Printf.sprintf "rc=%s slots=%s gcs=%s %s"
+        (String.concat "," (List.map (function RcOk -> "0" | RcLimit -> "L" | RcNotFound -> "F") rcs))
+        (String.concat "," (List.map (fun x -> Printf.sprintf "%x" (i x)) st.d_slots))
+        (String.concat "," (List.map (fun x -> match get_cipher_spec g (fun _ -> true) x with Some _ -> "1" | None -> "0") sl))
+        (match choose_suite g o o sl with Some s -> Printf.sprintf "ccs=0:%04x" (i s.s_id) | None -> "ccs=-1:0000")
   | ["dl"; supp; ok] ->
       String.concat "," (List.map (fun x -> Printf.sprintf "%04x" (i x)) (default_suite_list (ni supp) (okf (csv 16 ok))))
   | ["ksg"; ours; shares] ->
